@@ -8,7 +8,7 @@ CONSTANT Mut
 
 RelOf(rr, rd) == IF Kind = "ball" THEN BallRel(rr, rd) ELSE IF Fam = "auer" THEN AuerRel(rr) ELSE BoxRel(rr)
 
-MutStep(rl) ==
+MutStep(rl, rr) ==
   CASE Mut = "cover-from-pess" ->        \* VOGP/eps-PAL: coverers drawn from the pessimistic set instead of S u P
          LET Pe == VogpPess(S, P, rl.c)  Dx == VogpDisc(S, P, rl.c, rl.a)  S1 == S \ Dx
              NP == { i \in S1 : ~ \E j \in Pe \ {i} : <<i,j>> \in rl.b } IN [S |-> S1 \ NP, P |-> P \cup NP, U |-> {}]
@@ -34,6 +34,14 @@ MutStep(rl) ==
     [] Mut = "A-without-U" ->            \* PaVeBa family: useful designs forgotten as witnesses / coverers
          LET Dx == { i \in S : \E j \in S \ {i} : <<i,j>> \in rl.a }  S1 == S \ Dx
              NP == { i \in S1 : ~ \E j \in S1 \ {i} : <<i,j>> \in rl.b }  S2 == S1 \ NP  P2 == P \cup NP IN
+         [S |-> S2, P |-> P2, U |-> PavebaUseful(S2, P2, rl.b)]
+    [] Mut = "disc-witness-P" ->         \* discarding witnesses from S u P (stale, inactive members of P included) instead of S u U
+         LET Dx == { i \in S : \E j \in (S \cup P) \ {i} : <<i,j>> \in rl.a }  S1 == S \ Dx
+             NP == PavebaNewP(S1, U, rl.b)  S2 == S1 \ NP  P2 == P \cup NP IN
+         [S |-> S2, P |-> P2, U |-> PavebaUseful(S2, P2, rl.b)]
+    [] Mut = "cover-from-P" ->           \* coverers from S u P instead of S u U
+         LET Dx == PavebaDisc(S, U, rl.a)  S1 == S \ Dx
+             NP == { i \in S1 : ~ \E j \in (S1 \cup P) \ {i} : <<i,j>> \in rl.b }  S2 == S1 \ NP  P2 == P \cup NP IN
          [S |-> S2, P |-> P2, U |-> PavebaUseful(S2, P2, rl.b)]
     [] Mut = "useful-from-U" ->          \* useful set shrunk from the previous useful set instead of recomputed from P
          LET x == PavebaStep(S, P, U, rl.a, rl.b) IN
@@ -61,8 +69,11 @@ MutStep(rl) ==
     [] Mut = "auer-holdback-all" ->      \* held back by any other candidate, passing ones included
          LET Dx == AuerDisc(S, rl.a)  S1 == S \ Dx  P1 == AuerP1(S1, rl.b)
              NP == { i \in P1 : ~ \E j \in S1 \ {i} : <<j,i>> \in rl.c } IN [S |-> S1 \ NP, P |-> P \cup NP, U |-> {}]
+    [] Mut = "dom-corner" ->             \* is_dominated decided from one corner pair only (lower corner of j + slack vs upper corner of i)
+         LET ac == { p \in Pairs : InCone(W, Sub(Add(rr[p[2]].lo, SD), rr[p[1]].hi)) } IN
+         IF Fam = "vogp" THEN VogpStep(S, P, rl.c, ac, rl.b, TRUE) ELSE PavebaStep(S, P, U, ac, rl.b)
     [] OTHER -> StepOf(rl)
 
-NoDiff == [][ LET rl == RelOf(reg', rad')  m == MutStep(rl)  x == StepOf(rl) IN
+NoDiff == [][ LET rl == RelOf(reg', rad')  m == MutStep(rl, reg')  x == StepOf(rl) IN
               (~done /\ rl.ok) => (m.S = x.S /\ m.P = x.P /\ m.U = x.U) ]_vars
 =============================================================================
